@@ -71,6 +71,17 @@ Proof. exact dedup_spec. Qed.
 Theorem C08_match_spec : forall a b, arr_eqb a b = true <-> a = b.
 Proof. exact match_spec. Qed.
 
+(** keep with a negative scalar count = keep of the absolute count, rows reversed *)
+Theorem C08_keep_neg_scalar : forall fill a n s z, ash a = n :: s -> wf a -> (0 < z <= amt_limit)%Z ->
+  p_keep fill true [AInt (- z)] a = (r <- p_keep fill true [AInt z] a ;; Ok (p_reverse r)).
+Proof. exact keep_neg_scalar. Qed.
+Example C08_keep_neg_scalar_nonvacuous :
+  p_keep None true [AInt (-2)] (Arr TNum [3]%nat [ENum 1; ENum 2; ENum 3])
+    = Ok (Arr TNum [6]%nat [ENum 3; ENum 3; ENum 2; ENum 2; ENum 1; ENum 1]) /\
+  p_keep None false [AInt (-1); AInt (-1); AInt (-1)] (Arr TNum [3]%nat [ENum 1; ENum 2; ENum 3])
+    = Ok (Arr TNum [0]%nat []).
+Proof. vm_compute. split; reflexivity. Qed.
+
 (** non-vacuity: the premises are met by non-trivial arrays and the laws compute *)
 Example C08_nonvacuous :
   let a := Arr TNum [3; 2]%nat [ENum 5; ENum 1; ENum 2; ENum 2; ENum 5; ENum 1] in
@@ -125,3 +136,4 @@ Print Assumptions C08_sort_permutation.
 Print Assumptions C08_classify_dedup.
 Print Assumptions C08_dedup_spec.
 Print Assumptions C08_match_spec.
+Print Assumptions C08_keep_neg_scalar.
